@@ -465,6 +465,24 @@ example : (ASM.clear.step .setHandshake (.yld 0)).1 = { handshaker := true, resu
     (({ handshaker := true, result := some 0 } : ASM).step .inRead .stop) = (ASM.clear, .ok [.outConnect]) := by
   decide
 
+/-! ### a read event hands over the whole record -/
+
+/-- AsyncStateMachine's implicit read asks for at least a full record (the constant is read off
+    the AST on every run), so for every record plaintext the record layer accepts (≤ 2^14 bytes,
+    `recv_record_limit`) the whole record is handed to outReadEvent and nothing stays in
+    `_readBuffer` when the transport is drained. -/
+theorem asm_read_event_delivers_whole_record (data : Bytes) (h : data.length ≤ 16384) :
+    16384 ≤ Tls.Gen.Wrappers.asmReadMax ∧
+    asmReadEvent Tls.Gen.Wrappers.asmReadMax data = (data, []) := by
+  have hc : 16384 ≤ Tls.Gen.Wrappers.asmReadMax := by decide
+  refine ⟨hc, ?_⟩
+  simp only [asmReadEvent, readAsyncReturn]
+  rw [List.take_of_length_le (by omega), List.drop_of_length_le (by omega)]
+
+-- with a smaller constant the tail of a larger record would stay behind
+example : (asmReadEvent 4 [1, 2, 3, 4, 5, 6]).2 = [5, 6] ∧ (asmReadEvent 16384 [1, 2, 3, 4, 5, 6]) = ([1, 2, 3, 4, 5, 6], []) := by
+  decide
+
 /-! ### blocking API = drive the generator to exhaustion -/
 
 /-- blocking functions whose body must literally be "drive the asynchronous generator to
